@@ -64,6 +64,39 @@ func classifyPartValue(p *Program, ps partStore) (string, bool, string) {
 		return "marshal", true, "bytes produced by encoding/xml (escapes text and attribute values)"
 	}
 	if hasCall("io.ReadAll") {
+		// the reader handed to ReadAll must be the archive entry itself: a wrapper such as
+		// io.LimitReader silently truncates (or otherwise alters) what is stored as the part
+		for x := range res.Vals {
+			c, ok := x.(*ssa.Call)
+			if !ok || calleeName(c) != "io.ReadAll" {
+				continue
+			}
+			arg := c.Call.Args[0]
+			if mi, ok := arg.(*ssa.MakeInterface); ok {
+				arg = mi.X
+			}
+			if ci, ok := arg.(*ssa.ChangeInterface); ok {
+				arg = ci.X
+			}
+			direct := false
+			if ex, ok := arg.(*ssa.Extract); ok {
+				if oc, ok := ex.Tuple.(*ssa.Call); ok && strings.HasSuffix(calleeName(oc), "archive/zip.File).Open") {
+					direct = true
+				}
+			}
+			if wc, ok := arg.(*ssa.Call); ok {
+				switch calleeName(wc) {
+				case "bufio.NewReader", "bufio.NewReaderSize":
+					direct = true // buffering does not change the bytes
+				}
+			}
+			if _, isParam := arg.(*ssa.Parameter); isParam {
+				direct = true
+			}
+			if !direct {
+				return "copy-from-zip", false, "the bytes are read through " + symOf(arg).String() + " rather than from the archive entry itself: a limiting or transforming reader stores a truncated or altered part without reporting an error"
+			}
+		}
 		return "copy-from-zip", true, "bytes read from the opened archive, stored unmodified"
 	}
 	// the same copy written with a bytes.Buffer: buf.ReadFrom(rc) / io.Copy(&buf, rc); buf.Bytes()
